@@ -169,7 +169,7 @@ def wrap_array(a, wrap, caller, tmpdir):
     return a
 
 
-CONSTRUCT = ['frame_2d', 'frame_items', 'frame_blocks', 'series', 'series_he', 'index', 'index_go', 'ih', 'frame_he', 'frame_go', 'frame_records', 'series_readonly', 'frame_view',
+CONSTRUCT = ['index_from_go', 'frame_go_to_frame', 'ih_from_ihgo', 'frame_2d', 'frame_items', 'frame_blocks', 'series', 'series_he', 'index', 'index_go', 'ih', 'frame_he', 'frame_go', 'frame_records', 'series_readonly', 'frame_view',
              'frame_structured', 'frame_concat_2d', 'ih_from_go', 'series_go_index', 'frame_go_axes']
 
 
@@ -235,6 +235,21 @@ def build(how, spec, caller, wrap='plain', tmpdir=None):
         blocks = gen.build_blocks(spec)
         caller.extend(blocks)
         return sf.Frame(sf.TypeBlocks.from_blocks(blocks), index=index, columns=columns)
+    if how in ('index_from_go', 'frame_go_to_frame', 'ih_from_ihgo'):
+        # STATIC containers made from a grow-only container the caller keeps and grows afterwards: the label map of a static
+        # index must be its own (a typed - datetime - index takes another route through Index.__init__ than an untyped one)
+        typed = n % 2 == 0
+        go = sf.IndexDateGO(('2020-01-01', '2020-01-02', '2020-01-05')) if typed else sf.IndexGO(('a', 'b', 'c'))
+        caller.append(go)
+        if how == 'index_from_go':
+            return (sf.IndexDate if typed else sf.Index)(go)
+        if how == 'frame_go_to_frame':
+            g = sf.FrameGO(np.arange(6).reshape(2, 3), columns=go, own_columns=True)
+            caller.append(g)
+            return g.to_frame()
+        hgo = sf.IndexHierarchyGO.from_product(('p', 'q'), go)
+        caller.append(hgo)
+        return sf.IndexHierarchy(hgo)
     if how in ('ih_from_go', 'series_go_index', 'frame_go_axes'):
         # containers built from grow-only indexes the caller keeps (and later grows): a static container must not follow
         outer = sf.IndexGO(('a', 'b'))
@@ -597,10 +612,24 @@ def evaluate(ctx, c, outs):
                 snaps[i] = s2
 
     def caller_writes(desc):
+        grown_labels = []
         for a in caller:
             if type(a).__module__.startswith('static_frame') and not getattr(a, 'STATIC', True):
-                try:            # a grow-only index the caller kept: it grows
-                    a.append(np.datetime64('2031-01-01') if 'Date' in type(a).__name__ else f'__caller{len(a)}__')
+                try:            # a grow-only container the caller kept: it grows
+                    if isinstance(a, sf.FrameGO):
+                        lab = np.datetime64('2031-02-0%d' % (1 + a.shape[1] % 8)) if 'Date' in type(a.columns).__name__ else f'__callercol{a.shape[1]}__'
+                        a[lab] = 0
+                    elif isinstance(a, sf.IndexHierarchyGO):
+                        last = tuple(a.iloc[-1]) if len(a) else None
+                        inner_date = last is not None and isinstance(last[-1], np.datetime64)
+                        lab = (last[:-1] + ((np.datetime64('2031-03-0%d' % (1 + len(a) % 8)) if inner_date else f'__caller{len(a)}__'),)) if last else None
+                        if lab is not None:
+                            a.append(lab)
+                    else:
+                        lab = np.datetime64('2031-01-0%d' % (1 + len(a) % 8)) if 'Date' in type(a).__name__ else f'__caller{len(a)}__'
+                        a.append(lab)
+                    if lab is not None:
+                        grown_labels.append(lab)
                 except Exception:
                     pass
                 continue
@@ -633,6 +662,22 @@ def evaluate(ctx, c, outs):
             if s2 != snaps[i] and getattr(o, 'STATIC', True):
                 fails.append(Failure('oracle', f'after {desc}: a write by the caller through the array it supplied is visible in live container {i} ({type(o).__name__})', c))
                 snaps[i] = s2
+            if getattr(o, 'STATIC', True) and grown_labels:
+                # a label the caller appended to ITS grow-only container is not a label of a static container made from it
+                from static_frame.core.index_base import IndexBase as _IB
+                axes = [o] if isinstance(o, _IB) else [o.index] + ([o.columns] if isinstance(o, sf.Frame) else [])
+                for ax in axes:
+                    held = {repr(x) for x in ax}
+                    for lab in grown_labels:
+                        if repr(lab) in held or (isinstance(lab, tuple) != (ax.depth > 1)):
+                            continue
+                        try:
+                            leaked = lab in ax
+                        except Exception:
+                            leaked = False
+                        if leaked:
+                            fails.append(Failure('oracle', f'after {desc}: label {lab!r} appended by the caller to its grow-only container is found in live static container {i} ({type(o).__name__}) which does not hold it', c))
+                            break
 
     check_all('construction', None)
     caller_writes('construction')
